@@ -810,6 +810,23 @@ func (c *cctx) evalCall(e *ast.CallExpr) cval {
 			return c.boolVal(True)
 		}
 		return c.boolVal(x.stringEq(c.st, sa, sb))
+	case "same_string":
+		// identity of two strings/slices: same backing array, offset and length
+		a, b := c.eval(arg(0)), c.eval(arg(1))
+		sa, ok1 := a.v.(Sl)
+		sb, ok2 := b.v.(Sl)
+		if !ok1 || !ok2 {
+			c.fail("same_string wants strings")
+			return c.boolVal(True)
+		}
+		ca, cb := x.slComp(c.st, sa), x.slComp(c.st, sb)
+		cs := []*Term{Eq(sa.Off, sb.Off), Eq(sa.Len, sb.Len)}
+		for i := range ca {
+			if i < len(cb) {
+				cs = append(cs, Eq(ca[i], cb[i]))
+			}
+		}
+		return c.boolVal(And(cs...))
 	case "strid":
 		// strid(s): the key id of a string (as used for string-keyed maps)
 		a := c.eval(arg(0))
